@@ -540,9 +540,10 @@ def c03(prop, tier):
     for c in (["bn254"] if tier == "quick" else CURVES):
         jobs.append(Job("plonk-domains-" + c, "./backend/plonk/" + c, ["prelude_sym.go", "c03_plonk_domains.go"], dict(plonk_subst(c), CRVNAME=c)))
         jobs.append(Job("plonk-bsb22-challenge-" + c, "./backend/plonk/" + c, ["prelude_sym.go", "prelude_fr_sym.go", "c03_plonk_challenge.go"], dict(plonk_subst(c), CRVNAME=c)))
+        jobs.append(Job("plonk-quotient-shards-" + c, "./backend/plonk/" + c, ["prelude_sym.go", "prelude_fr_sym.go", "c03_plonk_shards.go"], plonk_subst(c)))
     return run_property(prop, tier, jobs,
-                        expect_reach={"verifHarness_commitmentChallengeConsistency": ["challenge-compared"], "verifHarness_bsb22HintChallenge": ["challenge"], "verifHarness_quotientDomainSize": ["domains"]},
-                        title="C03 (prover kernels and prover/verifier agreement): Groth16 commitment-wire derivation: the real Prove (cut at the solver, whose stand-in runs the prover's hint override) and the real Verify (cut at the public-input multi-exponentiation) hash exactly the same bytes and, given the same digest, derive the same field element, for 0..2 committed public values, 0..1 private ones, symbolic values and commitment point, and hash-to-field functions with a digest shorter than / equal to / longer than a field element set on both sides; PLONK: the prover's real bsb22Hint hashes the marshalled commitment and maps the first min(Size, fr.Bytes) digest bytes, the rule the verifier is held to in C02's algebra harness; PLONK newInstance: for every system size 2..2^20 (symbolic) the quotient domain holds the 3(n+2) coefficients the prover slices out of it; filterHeap, which selects the wire values fed to the Krs multi-exponentiation when commitments exist, removes exactly the listed indices (duplicates, any order) and keeps the others in order, for slices of 0..4 elements, offsets 0..3 and 0..3 symbolic indices.",
+                        expect_reach={"verifHarness_commitmentChallengeConsistency": ["challenge-compared"], "verifHarness_bsb22HintChallenge": ["challenge"], "verifHarness_quotientDomainSize": ["domains"], "verifHarness_quotientShards": ["quotient-shards"]},
+                        title="C03 (prover kernels and prover/verifier agreement): Groth16 commitment-wire derivation: the real Prove (cut at the solver, whose stand-in runs the prover's hint override) and the real Verify (cut at the public-input multi-exponentiation) hash exactly the same bytes and, given the same digest, derive the same field element, for 0..2 committed public values, 0..1 private ones, symbolic values and commitment point, and hash-to-field functions with a digest shorter than / equal to / longer than a field element set on both sides; PLONK: the prover's real bsb22Hint hashes the marshalled commitment and maps the first min(Size, fr.Bytes) digest bytes, the rule the verifier is held to in C02's algebra harness; PLONK newInstance: for every system size 2..2^20 (symbolic) the quotient domain holds the 3(n+2) coefficients the prover slices out of it; the three quotient shards h1, h2, h3 (n = 4, symbolic coefficients and randomizers) recombine to the quotient coefficient by coefficient with and without WithStatisticalZeroKnowledge, and leave the quotient untouched; filterHeap, which selects the wire values fed to the Krs multi-exponentiation when commitments exist, removes exactly the listed indices (duplicates, any order) and keeps the others in order, for slices of 0..4 elements, offsets 0..3 and 0..3 symbolic indices.",
                         design_ref="DESIGN.md §3 C03",
                         assumptions=["caller contract: indices to remove are not below the slice's first index",
                                      "encodings (Element.Marshal, big.Int.FillBytes, G1Affine.Marshal, Element.SetBytes) are opaque functions of their argument; the hash is a recording stand-in whose digest is arbitrary"],
